@@ -88,6 +88,10 @@ class Built:
             o.add_dependencies(*[self.objs[i].__xpm__.dependency() for i in a["ids"]])
         elif k == "seal":
             o.__xpm__.seal(DirectoryContext(Path("/nonexistent/ctx")))
+        elif k == "ids":                    # the identifiers are requested (and cached when sealed)
+            o.__xpm__.full_identifier
+        elif k == "unseal":
+            o.__xpm__.__unseal__()
         else:
             raise ValueError(k)
 
